@@ -389,6 +389,53 @@ def h_assign(e, test, term, wrap):
     e.nontriv()
 
 
+NAMED = {
+    'iff': ('$p\\iff q$', 'p\u27faq'),
+    'ifthenelse': ('\\ifthenelse{1=1}{y}{n}', 'y'),
+    'ifthenelse-else': ('\\ifthenelse{1=2}{y}{n}', 'n'),
+    'unknown-conditional': ('\\ifvqunknown u\\else v\\fi ', None),       # a conditional of a package plasTeX does not know: only its nesting matters
+}
+
+
+def h_named(e, which, place):
+    """control sequences whose name starts with `if` but that are not conditionals (\\iff, \\ifthenelse) inside the branches of a conditional: they open no
+    nesting level; an unknown \\if... name is treated as a conditional so that its \\else / \\fi stay with it"""
+    src_item, text = NAMED[which]
+    doc = TeXDocument()
+    ctx = doc.context
+    ctx.newif('iffoo')
+    foo = e.bool('foo')
+    ctx['iffoo'].state = foo
+    ctx.newcount('ra')
+    v = e.int('ra', -2, 5)
+    ctx['ra'].value = e.num(plasTeX.count, v)
+    if place == 'then':
+        body = '\\iffoo A' + src_item + ' B\\else C\\fi Z'
+        want = ('A' + (text or '') + 'B' if foo else 'C') + 'Z'
+    elif place == 'else':
+        body = '\\iffoo A\\else B' + src_item + ' C\\fi Z'
+        want = ('A' if foo else 'B' + (text or '') + 'C') + 'Z'
+    elif place == 'inner':
+        body = '\\iffoo A\\ifnum\\ra>1 B' + src_item + ' C\\else D\\fi E\\else F\\fi Z'
+        want = (('A' + ('B' + (text or '') + 'C' if v > 1 else 'D') + 'E') if foo else 'F') + 'Z'
+    else:
+        body = '\\ifcase\\ra A\\or B' + src_item + ' C\\or D\\else E\\fi Z'
+        want = ('A' if v == 0 else ('B' + (text or '') + 'C' if v == 1 else ('D' if v == 2 else 'E'))) + 'Z'
+    if text is None and ((place == 'then' and foo) or (place == 'else' and not foo) or (place == 'inner' and foo and v > 1) or (place == 'case' and v == 1)):
+        return                                   # the unknown conditional would be processed: what it does then is not claimed
+    tex = TeX(doc)
+    tex.input(Src(list('\\usepackage{ifthen}' + body)))
+    try:
+        got = tex.parse().textContent
+    except (IndexError, KeyError, ValueError, TypeError, AttributeError) as ex:
+        e.fail_exception(ex, 'raises:%s' % type(ex).__name__)
+        return
+    got = ''.join(str(got).split())
+    e.observe(got)
+    e.check(got == want, 'with %s in the %s branch the conditional yields %r, TeX selects %r' % (which, place, got, want), 'branch-text:named-if')
+    e.nontriv()
+
+
 def jobs(tier, seed):
     J = []
 
@@ -402,6 +449,9 @@ def jobs(tier, seed):
         for term in TERMINATORS:
             for wrap in (('none',) if tier == 'quick' else ('none', 'group', 'macro')):
                 J.append(dict(harness='h_assign', params=dict(test=test, term=term, wrap=wrap), label='assignment then %s (%s, %s)' % (test, term, wrap), no_twin=True))
+    for which in NAMED:
+        for place in ('then', 'else', 'inner', 'case'):
+            J.append(dict(harness='h_named', params=dict(which=which, place=place), label='%s in the %s branch' % (which, place), no_twin=True))
     if tier == 'quick':
         fam('k2', 12, stride=2)
         fam('k1', 8, wrap='macro')
